@@ -226,6 +226,9 @@ type c16Spec struct {
 	// connections that were idle during Close send `late` (a Query): Close is final, nothing runs any more
 	serveAgain bool
 	late       []byte
+	// terminateHook: the server has a TerminateConn hook (user code run by the handler of a Terminate message, with
+	// yield points): Close waits for it like for any other command handler
+	terminateHook bool
 	desc       string
 }
 
@@ -262,6 +265,10 @@ func c16Specs() []c16Spec {
 			desc: "an idle connection + Close; after Close returned Serve is called again with another listener and the idle connection sends a Query: no parser or statement function begins executing any more"},
 		{name: "X18", conns: []c16Conn{{"c1", [][]byte{start, pgproto.Parse("", "q")}}, {"c2", [][]byte{start, pgproto.Parse("s", "q"), pgproto.Bind("", "s", nil, nil, nil)}}}, closers: 1,
 			desc: "clients that stop in the middle of an extended-query cycle (Parse / Parse + Bind, no Sync) and stay connected + Close: a command that has finished holds up nobody"},
+		{name: "X19", conns: []c16Conn{{"c1", [][]byte{start, pgproto.Terminate()}}}, closers: 1, terminateHook: true,
+			desc: "a client sending Terminate to a server with a TerminateConn hook (user code with yield points) + Close: Close returns only after the hook has finished, and no hook starts after Close returned"},
+		{name: "X20", conns: []c16Conn{{"c1", [][]byte{start, q, pgproto.Terminate()}}, {"c2", [][]byte{start, pgproto.Terminate()}}}, closers: 1, terminateHook: true,
+			desc: "two clients (one runs a Query first) sending Terminate to a server with a TerminateConn hook + Close"},
 		{name: "X8", conns: []c16Conn{{"c1", [][]byte{start, q}}}, closers: 1, acceptFault: true,
 			desc: "the listener fails with an Accept error (Serve returns it) while a connection is inside a handler, then Close"},
 	}
@@ -292,6 +299,15 @@ func c16Scenario(spec c16Spec) *Scenario {
 					sopts = append(sopts, wire.SessionAuthStrategy(wire.ClearTextPassword(func(ctx context.Context, db, user, pw string) (context.Context, bool, error) {
 						return ctx, pw == "pw", nil
 					})))
+				}
+				if spec.terminateHook {
+					sopts = append(sopts, wire.TerminateConn(func(ctx context.Context) error {
+						sp := log.begin(connName(ctx), "terminate-hook")
+						vsched.Yield("hook.1")
+						vsched.Yield("hook.2")
+						log.finish(sp)
+						return nil
+					}))
 				}
 				srv, err := wire.NewServer(parse, sopts...)
 				if err != nil {
